@@ -114,6 +114,9 @@ func vRedactOp(t []string) string {
 				w.Write([]byte(`{"exception":{"message":"no","error_type":"NewRelic::Agent::LicenseException"}}`))
 			case "redirect":
 				http.Redirect(w, r, r.URL.String()+"&again=1", http.StatusFound)
+			case "redirect-other":
+				// a balancer that sends the request on to another host, repeating the original query (license key included)
+				http.Redirect(w, r, "https://other-collector.invalid:1"+r.URL.String(), http.StatusTemporaryRedirect)
 			case "reset":
 				if hj, ok := w.(http.Hijacker); ok {
 					c, _, _ := hj.Hijack()
